@@ -1,0 +1,11 @@
+//go:build verif
+
+// Contracts for package star (comment-only; read by /verif/govc).
+
+package star
+
+//@ func (*socket).SendMsg
+//@   before call:SendMsg#1 assert len(m.Header) == 4 && m.Header[0] == 0 && m.Header[1] == 0 && m.Header[2] == 0 && m.Header[3] == 0
+//@
+//@ func (*socket).RecvMsg
+//@   ensures isnil(result1) && result0 != nil ==> len(result0.Header) == 0
